@@ -1,38 +1,39 @@
-"""C13 -- mesh merging, reading and order elevation keep meshes valid (structural clauses).
+"""C13 -- mesh merging, reading and order elevation keep meshes valid.
 
-  D1  merging loses nothing: in combine_nodesets / combine_sidesets / combine_blocks a store `new[k] = e` in the
-      loop over the second source (the dict was already filled from the first) reads the previous `new[k]` under a
-      membership test, or is guarded by one; index kinds: node-indexed collections are shifted by the first mesh's
-      node count, element-indexed ones by its element count, local side numbers are not shifted; coordinates and
-      connectivity are concatenated first-mesh-first;
-  D2  readers: every index-valued Exodus record (connect*, node_ns*, elem_ss*, side_ss*) passes through exactly one
-      `- 1`; coordinate records through none; block element ranges are accumulated (loop-carried `+=` by the block's
-      own element count); the 6-node permutation is a permutation whose vertex and mid-edge images equal the parent
-      element's own vertex/face tables at degree 2 (constant folding of the table formulas); vertex extraction reads
-      the first three Exodus columns before the permutation is applied;
-  D3  order elevation: the left element receives the new edge nodes in order and the right neighbour reversed
-      (sibling stores differ exactly by a flip); vertex / edge / interior node numbers come from consecutive disjoint
-      ranges stacked in the same order as the coordinates; the interior-node affine map uses the same vertex
-      convention as FunctionSpace.map_element_shape_grads (dx/dxi0 = v0 - v2, dx/dxi1 = v1 - v2).
-Not decided: positive areas, edge uniqueness/adjacency correctness, geometric placement as numbers.
+Every clause is decided on *results*: the library functions are interpreted (rules/C03_interp.MeshInterp: exact symbolic arrays of concrete
+shape; the library is never imported or run) on small sample inputs whose index data is concrete and whose coordinates / members are
+symbols, and what comes out is compared with the specification.  The organisation of the code (loops, comprehensions, helpers, closures,
+in-place buffers, `_replace`, dict idioms, guard clauses, table lookups ...) does not enter.
+
+  D1  merging loses nothing: combine_nodesets / combine_sidesets / combine_blocks on dictionaries with equal and distinct names, absent
+      (None) and empty sets: every member of either source is in the result (lossless-merge); members of the second source are shifted by
+      the offset, side numbers and the first source are not (index-kinds).  combine_mesh on two meshes whose node and element counts
+      differ: coordinates / fields first-mesh-first, connectivity + node count, node sets + node count, side sets and blocks + element count;
+  D2  readers (rules/C13_io.py): read_exodus_mesh on fake Exodus files (three blocks, named and unnamed sets, with / without id map; a
+      6-node file): every index record (connect*, node_ns*, elem_ss*, side_ss*) arrives zero-based exactly once, coordinates and id maps
+      unshifted, blocks = consecutive element ranges in file order, nothing lost; the native 6-node order is derived from the parent
+      element's own vertex / face tables at degree 2; vertex set = the first three Exodus columns; read_json_mesh keeps everything;
+  D3  order elevation and edge extraction (rules/C03_mesh.py): on sample meshes with symbolic vertex coordinates the elevated mesh has
+      in-range connectivity using every node, keeps the vertex numbering, places node k of every element at the affine image of the
+      reference node k (=> neighbours share edge nodes in matching order; same map as FunctionSpace's Jacobian), has no duplicate nodes
+      and carries the parent elements of the target order; create_edges lists each edge once with correct left / right adjacency;
+      parent-element tables (rules/parentelem.py).
+Not decided: positive areas of generated meshes, geometric validity of arbitrary input files.
 """
 from __future__ import annotations
 
 import ast
 
-from optilint.cfg import cfg_of
-from optilint.model import dotted, walk_local
 from optilint.core import Incomplete
-from optilint.expr import Algebra, NotPolynomial
-from .common import Unifier, src, expand, same, calls_in, actual, single_def, def_value, const_value
 
 LEVEL = "other"
-RULE_TEXT = ("obligations = (store in a merge loop x lossless form) + (offset argument x index kind) + (Exodus record x number of "
-             "one-based conversions) + (permutation slot x parent-element table) + (order-elevation store x orientation / range)")
-EXPLANATION = ("Static analysis of Mesh.py, ReadExodusMesh.py, ReadMesh.py, Interpolants.py: lossy-merge detection, index-kind typing of "
-               "offsets, one-based/zero-based conversion counting per record, constant folding of the parent-element tables "
-               "against the reader's permutation literal, and sibling comparison of the left/right edge-node stores. "
-               "Geometric validity of produced meshes is not decided.")
+RULE_TEXT = ("obligations = (merge function x scenario x {no member lost, offset kind}) + (merged mesh field x specification) + (Exodus record x "
+             "arrives zero-based once) + (block x consecutive range) + (6-node slot x parent-element table) + (sample mesh x order x "
+             "{range, vertices, affine image of edge / interior nodes, duplicates})")
+EXPLANATION = ("Symbolic interpretation of Mesh.py, ReadExodusMesh.py, ReadMesh.py, Interpolants.py on sample inputs (concrete index data, symbolic "
+               "coordinates and members, fake Exodus / JSON files); results compared with the specification of lossless merging, one-based to "
+               "zero-based conversion, consecutive block ranges, parent-element tables and affine placement of elevated nodes. "
+               "Geometric validity of arbitrary produced meshes is not decided.")
 
 ME = "optimism.Mesh"
 RX = "optimism.ReadExodusMesh"
@@ -44,10 +45,10 @@ def run(ctx):
         ctx.need_module(m)
     ctx.guard(d1_lossless, ctx)
     ctx.guard(d1_kinds, ctx)
-    ctx.guard(d2_one_based, ctx)
-    ctx.guard(d2_block_ranges, ctx)
-    ctx.guard(d2_permutation, ctx)
+    ctx.guard(d2_exodus, ctx)
+    ctx.guard(d2_json, ctx)
     ctx.guard(d3_elevation, ctx)
+    ctx.guard(d3_edges, ctx)
     from . import parentelem
     ctx.guard(parentelem.run, ctx, "D3/T6-parent-element-tables")
     ctx.trust("Exodus II stores node/element/side numbers one-based; TRI6 = 3 vertices then mid-side nodes 3:(0,1) 4:(1,2) 5:(2,0)")
@@ -55,836 +56,244 @@ def run(ctx):
 
 
 # ------------------------------------------------------------------ D1
+# Decided on results: the merge functions are interpreted (rules/C03_interp.MeshInterp) on dictionaries of symbolic index arrays and on
+# two small meshes; what comes out is compared with "every member of either source is present, members of the second source shifted by
+# the offset of their index kind, nothing else shifted".
+
+from optilint.tensoreval import Dual, Arr, EvalError, Raised, Unknown, Record, _A
+from .C03_interp import fresh_interp, int_arr, ints_of, const_of, rows_of
+from . import C03_mesh as CM
+from .C03_mesh import ERRS, eq
+
+
+def _fnv(I, qual):
+    m, _, f = qual.partition(":")
+    return I.module_value(I.repo.modules[m], f)
+
+
+def _sym_ids(prefix, n):
+    return Arr([Dual(_A.atom(f"{prefix}{i}")) for i in range(n)], (n,))
+
+
+def _sym_sides(prefix, n):
+    return Arr([Dual(_A.atom(f"{prefix}{i}{c}")) for i in range(n) for c in ("e", "s")], (n, 2))
+
+
+def _key_of(x):
+    return repr(x.a)
+
+
+def _members(v, width):
+    """multiset of the members of an index array: rows (tuples of canonical texts) for width 2, entries for width 1"""
+    if isinstance(v, Unknown):
+        raise EvalError(f"merged entry not evaluated: {v.why[:100]}")
+    if isinstance(v, (list, tuple)):
+        v = Arr.from_nested(list(v)) if len(v) else Arr([], (0,))
+    if not isinstance(v, Arr):
+        raise EvalError(f"merged entry is {v!r}")
+    if v.size() == 0:
+        return []
+    if width == 1:
+        return sorted(_key_of(x) for x in v.data)
+    if v.ndim != 2 or v.shape[1] != width:
+        raise EvalError(f"merged entry has shape {v.shape}")
+    return sorted(tuple(_key_of(x) for x in r.data) for r in rows_of(v))
+
+
+def _zero_off(v, off_atom):
+    """the same array with the offset symbol set to zero (membership modulo shifting)"""
+    if not isinstance(v, Arr):
+        return v
+    return Arr([Dual(_A.subst(x.a, off_atom, _A.const(0))) for x in v.data], v.shape)
+
+
+def _merge_scenarios(kind):
+    """(label, set1, set2) with symbolic members; kind: 'nodes' (1-d, None allowed), 'sides' ((k,2), empty = shape (0,), None allowed), 'blocks'"""
+    mk = _sym_sides if kind == "sides" else _sym_ids
+    empty = lambda: Arr([], (0,))
+    sc = [
+        ("same name in both", {"a": mk("p", 2), "b": mk("q", 1)}, {"a": mk("r", 2), "c": mk("t", 1)}),
+        ("distinct names", {"a": mk("p", 2)}, {"c": mk("t", 2)}),
+    ]
+    if kind != "blocks":
+        sc += [("first is None", None, {"c": mk("t", 2)}), ("second is None", {"a": mk("p", 2)}, None)]
+    if kind == "sides":
+        sc += [("same name, second empty", {"a": mk("p", 2)}, {"a": empty()}),
+               ("same name, first empty", {"a": empty()}, {"a": mk("r", 2)}),
+               ("new name, empty", {"a": mk("p", 1)}, {"c": empty()})]
+    return sc
+
 
 def d1_lossless(ctx):
     rule = "D1/T9-lossless-merge"
-    n_loops = 0
-    for fname in ("combine_nodesets", "combine_sidesets", "combine_blocks"):
+    rule_k = "D1/T9-index-kinds"
+    off = Dual(_A.atom("OFFSET"))
+    n_done = 0
+    for fname, kind in (("combine_nodesets", "nodes"), ("combine_sidesets", "sides"), ("combine_blocks", "blocks")):
         sc = ctx.need(f"{ME}:{fname}")
-        rets = sc.returns()
-        if len(rets) != 1 or not isinstance(rets[0], ast.Name):
-            ctx.undecided(rule, sc, None, construct=f"{fname}:return", detail="does not return a single dict name")
-            continue
-        new = rets[0].id
-        p1, p2 = sc.params()[0], sc.params()[1]
-        loops = [st for st in ast.walk(sc.node) if isinstance(st, ast.For) and isinstance(st.iter, ast.Name)]
-        first = [l for l in loops if l.iter.id == p1]
-        second = [l for l in loops if l.iter.id == p2]
-        if not second:
-            ctx.undecided(rule, sc, None, construct=f"{fname}:loops", detail="loop over the second source not found")
-            continue
-        for lp in second:
-            n_loops += 1
-            key = lp.target.id if isinstance(lp.target, ast.Name) else None
-            stores = [st for st in ast.walk(lp) if isinstance(st, ast.Assign) and isinstance(st.targets[0], ast.Subscript)
-                      and isinstance(st.targets[0].value, ast.Name) and st.targets[0].value.id == new]
-            if not stores:
-                ctx.refuted(rule, sc, lp, construct=f"{fname}:second-source-stored", detail=f"entries of `{p2}` are never stored into the merged dict")
-                continue
-            body_src = ast.Module(body=lp.body, type_ignores=[])
-            for (ok, wit, st) in _merge_paths(cfg_of(sc), lp, new, key):
-                ctx.decide(rule, ok, sc, st, construct=f"{fname}:store-keeps-first-source[{wit['path']}]",
-                           detail=f"on this path the stored value contains the entry of the first source, or there is none / it is empty",
-                           bad_detail=f"path [{wit['path']}] stores `{wit['value']}` into `{new}[{key}]` although {wit['why']}: when both meshes have a set "
-                                      f"named alike, the first mesh's members are lost")
-            # the second source is offset
-            off = sc.params()[2]
-            used = any(isinstance(n, ast.Name) and n.id == off for n in ast.walk(body_src))
-            ctx.decide(rule, used, sc, lp, construct=f"{fname}:second-source-offset", detail=f"entries of `{p2}` are shifted by `{off}`",
-                       bad_detail=f"entries of `{p2}` are stored without adding `{off}`")
-        for lp in first:
-            body_src = ast.Module(body=lp.body, type_ignores=[])
-            off = sc.params()[2]
-            used = any(isinstance(n, ast.Name) and n.id == off for n in ast.walk(body_src))
-            ctx.decide(rule, not used, sc, lp, construct=f"{fname}:first-source-unshifted", detail="first mesh's entries are copied unshifted",
-                       bad_detail="first mesh's entries are shifted by the offset")
-    if n_loops < 3:
-        raise Incomplete(f"{n_loops} merge loops found (3 expected)")
-    # side sets: only the element column is shifted
-    sc = ctx.need(f"{ME}:combine_sidesets")
-    hits = [c for c in ast.walk(sc.node) if isinstance(c, ast.Call) and isinstance(c.func, ast.Attribute) and c.func.attr == "add"
-            and isinstance(c.func.value, ast.Subscript) and isinstance(c.func.value.value, ast.Attribute) and c.func.value.value.attr == "at"]
-    ok = len(hits) == 1 and src(hits[0].func.value.slice) in ("(slice(None, None, None), 0)", ":, 0", "(:, 0)") or \
-        (len(hits) == 1 and isinstance(hits[0].func.value.slice, ast.Tuple) and const_value(hits[0].func.value.slice.elts[1]) == 0
-         and isinstance(hits[0].func.value.slice.elts[0], ast.Slice))
-    ctx.decide("D1/T9-index-kinds", ok, sc, hits[0] if hits else None, construct="sidesets:shift-element-column-only",
-               detail="offset added to column 0 (element id) only; local side numbers unchanged",
-               bad_detail=f"side sets are shifted as `{src(hits[0]) if hits else '?'}`; only column 0 (the element id) may be shifted")
-
-
-STACKERS = ("hstack", "vstack", "concatenate", "append", "row_stack")
-
-
-def _prop_atoms(e, out):
-    """collect propositional atoms (canonical text -> sample node) of a condition"""
-    if isinstance(e, ast.BoolOp):
-        for v in e.values:
-            _prop_atoms(v, out)
-    elif isinstance(e, ast.UnaryOp) and isinstance(e.op, ast.Not):
-        _prop_atoms(e.operand, out)
-    else:
-        out.setdefault(_atom_key(e)[0], e)
-
-
-def _atom_key(e):
-    """(canonical atom, polarity): `x not in y` -> (`x in y`, False); `len(x) == 0` -> (`len(x) > 0`, False); `len(x) != 0`/`len(x) >= 1` -> True"""
-    if isinstance(e, ast.Compare) and len(e.ops) == 1:
-        l, r, op = e.left, e.comparators[0], e.ops[0]
-        if isinstance(op, ast.NotIn):
-            return (f"{src(l)} in {src(r)}", False)
-        if isinstance(op, ast.In):
-            return (f"{src(l)} in {src(r)}", True)
-        if isinstance(l, ast.Call) and src(l.func) == "len" and const_value(r) is not None:
-            c = const_value(r)
-            base = f"len({src(l.args[0])}) > 0"
-            if isinstance(op, ast.Gt) and c == 0 or isinstance(op, ast.GtE) and c == 1 or isinstance(op, ast.NotEq) and c == 0:
-                return (base, True)
-            if isinstance(op, ast.Eq) and c == 0 or isinstance(op, ast.Lt) and c == 1 or isinstance(op, ast.LtE) and c == 0:
-                return (base, False)
-    return (src(e), True)
-
-
-def _prop_eval(e, asg):
-    if isinstance(e, ast.BoolOp):
-        vals = [_prop_eval(v, asg) for v in e.values]
-        return all(vals) if isinstance(e.op, ast.And) else any(vals)
-    if isinstance(e, ast.UnaryOp) and isinstance(e.op, ast.Not):
-        return not _prop_eval(e.operand, asg)
-    k, pol = _atom_key(e)
-    return asg[k] if pol else not asg[k]
-
-
-def _merge_paths(cfg, lp, new, key):
-    """Enumerate the paths of one iteration of loop `lp`; yield (ok, witness, store stmt) per path that stores into new[key].
-    Abstract values: 'K' (contains the previous new[key]) / 'N'."""
-    import itertools
-    header = [n for n in cfg.nodes if n.kind == "for" and n.ast is lp]
-    if not header:
-        return
-    header = header[0]
-    body_ids = set()
-    for st in ast.walk(ast.Module(body=lp.body, type_ignores=[])):
-        body_ids.add(id(st))
-    paths = []
-
-    def dfs(node, nodes, conds):
-        if len(paths) > 200:
-            return
-        if node is header or (node.ast is not None and id(node.ast) not in body_ids and id(getattr(node, "stmt", None)) not in body_ids) and node.kind != "join":
-            paths.append((nodes, conds))
-            return
-        for (m, lab) in node.succ:
-            c2 = conds + [(node.ast, lab)] if node.kind == "cond" and lab is not None else conds
-            dfs(m, nodes + [m], c2)
-    for (m, lab) in header.succ:
-        if lab is True or (lab is None and m.ast is not None and id(m.ast) in body_ids):
-            dfs(m, [m], [])
-
-    def absval(e, env):
-        """list of (abstract value, extra conditions)"""
-        if isinstance(e, ast.Subscript) and isinstance(e.value, ast.Name) and e.value.id == new and src(e.slice) == key:
-            return [("K", [])]
-        if isinstance(e, ast.Name):
-            return [(env.get(e.id, "N"), [])]
-        if isinstance(e, ast.IfExp):
-            out = []
-            for (v, cs) in absval(e.body, env):
-                out.append((v, cs + [(e.test, True)]))
-            for (v, cs) in absval(e.orelse, env):
-                out.append((v, cs + [(e.test, False)]))
-            return out
-        if isinstance(e, ast.Call) and (dotted(e.func) or "").split(".")[-1] in STACKERS:
-            parts = []
-            for a in e.args:
-                parts += list(a.elts) if isinstance(a, (ast.Tuple, ast.List)) else [a]
-            alts = [[]]
-            vals = ["N"]
-            combos = [("N", [])]
-            for prt in parts:
-                nxt = []
-                for (v0, c0) in combos:
-                    for (v1, c1) in absval(prt, env):
-                        nxt.append(("K" if "K" in (v0, v1) else "N", c0 + c1))
-                combos = nxt
-            return combos
-        return [("N", [])]
-
-    for (nodes, conds) in paths:
-        alts = [({}, list(conds), None, None)]      # env, conditions, stored abstract value, store stmt
-        for nd in nodes:
-            if nd.kind != "stmt" or not isinstance(nd.ast, ast.Assign):
-                continue
-            st = nd.ast
-            t = st.targets[0]
-            nxt = []
-            for (env, cs, stored, sst) in alts:
-                for (v, extra) in absval(st.value, env):
-                    env2 = dict(env)
-                    if isinstance(t, ast.Name):
-                        env2[t.id] = v
-                        nxt.append((env2, cs + extra, stored, sst))
-                    elif isinstance(t, ast.Subscript) and isinstance(t.value, ast.Name) and t.value.id == new and src(t.slice) == key:
-                        nxt.append((env2, cs + extra, (v, src(st.value)), st))
+        width = 2 if kind == "sides" else 1
+        for label, s1, s2 in _merge_scenarios(kind):
+            cons = f"{fname}[{label}]"
+            try:
+                I = fresh_interp(ctx.repo, lobatto=False)
+                got = I.call(_fnv(I, f"{ME}:{fname}"), [s1, s2, off], {})
+                if not isinstance(got, dict):
+                    raise EvalError(f"result is {got!r}")
+                want_keys = list(dict.fromkeys(list(s1 or {}) + list(s2 or {})))
+                lost = shifted = None
+                for k in want_keys:
+                    a = (s1 or {}).get(k)
+                    b = (s2 or {}).get(k)
+                    if k not in got:
+                        if (a is None or a.size() == 0) and (b is None or b.size() == 0):
+                            continue        # an empty set that is dropped loses no member
+                        lost = lost or f"set '{k}' is missing from the merged collection"
+                        continue
+                    if kind == "sides" and b is not None and b.size():
+                        b_sh = Arr([x + off if i % 2 == 0 else x for i, x in enumerate(b.data)], b.shape)
+                    elif b is not None and b.size():
+                        b_sh = b.map(lambda x: x + off)
                     else:
-                        nxt.append((env2, cs + extra, stored, sst))
-            alts = nxt
-        for (env, cs, stored, sst) in alts:
-            if stored is None:
+                        b_sh = b
+                    want_exact = (_members(a, width) if a is not None else []) + (_members(b_sh, width) if b_sh is not None else [])
+                    want_mod = (_members(a, width) if a is not None else []) + (_members(b, width) if b is not None else [])
+                    g = got[k]
+                    got_mod = _members(_zero_off(g, "OFFSET"), width)
+                    if sorted(got_mod) != sorted(want_mod):
+                        missing = [m for m in want_mod if m not in got_mod]
+                        lost = lost or (f"set '{k}': merged members {got_mod}, sources hold {sorted(want_mod)}" +
+                                        (f" -- {missing} lost" if missing else " -- members duplicated or invented"))
+                    elif sorted(_members(g, width)) != sorted(want_exact):
+                        shifted = shifted or f"set '{k}': merged members {_members(g, width)}; expected {sorted(want_exact)}"
+                extra = [k for k in got if k not in want_keys]
+                if extra:
+                    lost = lost or f"merged collection has sets {extra} that neither source has"
+            except ERRS as ex:
+                ctx.undecided(rule, sc, None, construct=cons, detail=f"cannot interpret: {type(ex).__name__}: {str(ex)[:240]}")
                 continue
-            label = " & ".join(("" if lab else "not ") + "(" + src(c)[:40] + ")" for (c, lab) in cs) or "unconditional"
-            if stored[0] == "K":
-                yield (True, {"path": label, "value": stored[1], "why": ""}, sst)
-                continue
-            atoms = {}
-            for (c, lab) in cs:
-                _prop_atoms(c, atoms)
-            k_in = f"{key} in {new}"
-            k_len = f"len({new}[{key}]) > 0"
-            names = sorted(set(atoms) | {k_in, k_len})
-            witness = None
-            for bits in itertools.product((True, False), repeat=len(names)):
-                asg = dict(zip(names, bits))
-                if not asg[k_in] or not asg[k_len]:
-                    continue
-                if all(_prop_eval(c, asg) == lab for (c, lab) in cs):
-                    witness = asg
-                    break
-            if witness is None:
-                yield (True, {"path": label, "value": stored[1], "why": ""}, sst)
-            else:
-                yield (False, {"path": label, "value": stored[1],
-                               "why": f"`{key}` may already be in `{new}` with a non-empty entry (" + ", ".join(f"{a}={v}" for a, v in witness.items()) + ")"}, sst)
-
-
-def _kind(ctx, cfg, node, e, mesh1):
-    ex = expand(cfg, node, e, stop=(mesh1,))
-    s = src(ex)
-    if s == f"{mesh1}.coords.shape[0]" or s == f"num_nodes({mesh1})":
-        return "node-count(first)"
-    if s == f"{mesh1}.conns.shape[0]" or s == f"num_elements({mesh1})":
-        return "element-count(first)"
-    return "other:" + s
+            n_done += 1
+            ctx.decide(rule, lost is None, sc, None, construct=f"{cons}:no-member-lost",
+                       detail="every member of either source is in the merged set (and nothing else)",
+                       bad_detail=f"{fname}, {label}: {lost}: when both meshes have a set named alike (or one side is empty / absent) members are lost")
+            if lost is None:
+                what = "column 0 (element id) of the second source shifted by the offset, local side numbers unchanged" if kind == "sides" else \
+                    "second source shifted by the offset, first source unshifted"
+                ctx.decide(rule_k, shifted is None, sc, None, construct=f"{cons}:offset-applied-to-second-source-only",
+                           detail=what, bad_detail=f"{fname}, {label}: {shifted}; required: {what}")
+    if n_done < 6:
+        raise Incomplete(f"{n_done} merge scenarios interpreted")
 
 
 def d1_kinds(ctx):
+    """combine_mesh on two small meshes with different node and element counts: every field of the result against the specification."""
     rule = "D1/T9-index-kinds"
     cm = ctx.need(f"{ME}:combine_mesh")
-    cfg = cfg_of(cm)
-    # names of the two meshes: `mesh1, disp1 = m1`
-    unpack = [n for n in cfg.nodes if n.kind == "stmt" and isinstance(n.ast, ast.Assign) and isinstance(n.ast.targets[0], ast.Tuple)
-              and isinstance(n.ast.value, ast.Name) and n.ast.value.id in cm.params()]
-    if len(unpack) != 2:
-        raise Incomplete("combine_mesh: mesh/disp unpacking not found")
-    order = {n.ast.value.id: n.ast.targets[0].elts[0].id for n in unpack}
-    mesh1, mesh2 = order[cm.params()[0]], order[cm.params()[1]]
-    table = {"combine_nodesets": "node-count(first)", "combine_sidesets": "element-count(first)", "combine_blocks": "element-count(first)"}
-    seen = set()
-    for n in cfg.nodes:
-        if n.kind != "stmt" or n.ast is None:
+    try:
+        I = fresh_interp(ctx.repo)
+        pe, pe1 = CM.parent_elements(I, 1, False)
+        X1, X2 = CM.sym_coords(5, "A"), CM.sym_coords(4, "B")
+        T1 = [(0, 1, 2), (2, 3, 0), (4, 0, 3)]      # 5 nodes, 3 elements: node and element counts differ
+        T2 = [(0, 1, 2), (1, 3, 2)]
+        c1 = Arr([Dual(v) for t in T1 for v in t], (3, 3))
+        c2 = Arr([Dual(v) for t in T2 for v in t], (2, 3))
+        m1 = CM.make_mesh(I, X1, c1, pe, pe1, blocks={"blk": int_arr([0, 1, 2])}, nodeSets={"ns": int_arr([0, 4]), "only1": int_arr([1])},
+                          sideSets={"ss": Arr([Dual(v) for v in (0, 0, 2, 1)], (2, 2))})
+        m2 = CM.make_mesh(I, X2, c2, pe, pe1, blocks={"blk": int_arr([0]), "other": int_arr([1])}, nodeSets={"ns": int_arr([3]), "only2": int_arr([0, 2])},
+                          sideSets={"ss": Arr([Dual(v) for v in (1, 2)], (1, 2)), "ss2": Arr([Dual(v) for v in (0, 1)], (1, 2))})
+        d1, d2 = CM.sym_coords(5, "dA"), CM.sym_coords(4, "dB")
+        res = I.call(_fnv(I, f"{ME}:combine_mesh"), [(m1, d1), (m2, d2)], {})
+        for q in I.visited:
+            s_ = ctx.repo.find(q)
+            if s_ is not None and s_.module.name == ME:
+                ctx.touch(s_)
+        mesh, disp = res
+        if not isinstance(mesh, Record):
+            raise EvalError(f"result is {mesh!r}")
+    except ERRS as ex:
+        ctx.undecided(rule, cm, None, construct="combine_mesh", detail=f"cannot interpret: {type(ex).__name__}: {str(ex)[:240]}")
+        return
+    nN1, nE1 = 5, 3
+
+    def arr_eq(got, want):
+        if isinstance(got, Unknown):
+            raise EvalError(f"not evaluated: {got.why[:100]}")
+        return isinstance(got, Arr) and tuple(got.shape) == tuple(want.shape) and all(eq(a, b) for a, b in zip(got.data, want.data))
+
+    def cat(a, b):
+        return Arr(list(a.data) + list(b.data), (a.shape[0] + b.shape[0],) + tuple(a.shape[1:]))
+
+    def sets_ok(got, want, width):
+        if isinstance(got, Unknown):
+            raise EvalError(f"not evaluated: {got.why[:100]}")
+        if got is not None and not isinstance(got, dict):
+            raise EvalError(f"collection is {got!r}")
+        if not isinstance(got, dict) or sorted(got) != sorted(want):
+            return f"sets {sorted(got) if isinstance(got, dict) else got!r}, expected {sorted(want)}"
+        for k in want:
+            g = _members(got[k], width)
+            if g != sorted(want[k]):
+                return f"set '{k}' = {g}, expected {sorted(want[k])}"
+        return None
+
+    def S(vals):
+        return sorted(repr(Dual(v).a) for v in vals)
+
+    def S2(rows):
+        return sorted(tuple(repr(Dual(v).a) for v in r) for r in rows)
+    checks = [
+        ("coords:first-mesh-first", lambda: None if arr_eq(mesh.get("coords"), cat(X1, X2)) else "coordinates are not (first mesh, second mesh) stacked in this order",
+         "coordinates of the first mesh, then of the second"),
+        ("conns:second-mesh-shifted-by-node-count",
+         lambda: None if arr_eq(mesh.get("conns"), cat(c1, c2.map(lambda x: x + Dual(nN1)))) else
+         f"connectivity is {ints_of(mesh.get('conns')) if isinstance(mesh.get('conns'), Arr) and all(const_of(x) is not None for x in mesh.get('conns').data) else mesh.get('conns')!r}; "
+         f"expected the first mesh's rows, then the second mesh's rows + {nN1} (node count of the first mesh)",
+         "second mesh's node ids shifted by the first mesh's node count"),
+        ("disp:first-mesh-first", lambda: None if arr_eq(disp, cat(d1, d2)) else "nodal field is not (first, second) stacked in node order", "nodal fields stacked like the coordinates"),
+        ("combine_nodesets:offset-kind", lambda: sets_ok(mesh.get("nodeSets"), {"ns": S([0, 4, 3 + nN1]), "only1": S([1]), "only2": S([0 + nN1, 2 + nN1])}, 1),
+         "node sets: second mesh's members + node count of the first mesh"),
+        ("combine_sidesets:offset-kind", lambda: sets_ok(mesh.get("sideSets"), {"ss": S2([(0, 0), (2, 1), (1 + nE1, 2)]), "ss2": S2([(0 + nE1, 1)])}, 2),
+         "side sets: element id + element count of the first mesh, local side unchanged"),
+        ("combine_blocks:offset-kind", lambda: sets_ok(mesh.get("blocks"), {"blk": S([0, 1, 2, 0 + nE1]), "other": S([1 + nE1])}, 1),
+         "blocks: second mesh's element ids + element count of the first mesh"),
+        ("simplex-nodes", lambda: None if arr_eq(mesh.get("simplexNodesOrdinals"), int_arr(range(9))) else "simplexNodesOrdinals is not 0..nNodes-1 of the merged mesh",
+         "all nodes of the merged linear mesh are vertices"),
+    ]
+    for cons, fn, detail in checks:
+        try:
+            bad = fn()
+        except ERRS as ex:
+            ctx.undecided(rule, cm, None, construct=cons, detail=f"{type(ex).__name__}: {str(ex)[:200]}")
             continue
-        for c in [c for c in ast.walk(n.ast) if isinstance(c, ast.Call) and isinstance(c.func, ast.Name) and c.func.id in table]:
-            seen.add(c.func.id)
-            k = _kind(ctx, cfg, n, c.args[2], mesh1) if len(c.args) >= 3 else "?"
-            a0, a1 = src(c.args[0]), src(c.args[1])
-            attr = {"combine_nodesets": "nodeSets", "combine_sidesets": "sideSets", "combine_blocks": "blocks"}[c.func.id]
-            ok = k == table[c.func.id] and a0 == f"{mesh1}.{attr}" and a1 == f"{mesh2}.{attr}"
-            ctx.decide(rule, ok, cm, c, construct=f"{c.func.id}:offset-kind",
-                       detail=f"{c.func.id}({a0}, {a1}, {k})",
-                       bad_detail=f"{c.func.id} is called as ({a0}, {a1}, offset of kind {k}); expected ({mesh1}.{attr}, {mesh2}.{attr}, {table[c.func.id]})")
-    for f in table:
-        if f not in seen:
-            ctx.refuted(rule, cm, None, construct=f"{f}:called", detail=f"combine_mesh does not call {f}: that collection is dropped by the merge")
-    # roles of the locals from the returned Mesh(...)
-    from optilint.model import namedtuple_fields
-    mesh_nt = None
-    for b in ctx.need_module(ME).scope.bindings.get("Mesh", []):
-        if isinstance(b.value, ast.Call):
-            mesh_nt = namedtuple_fields(b.value)
-    if mesh_nt is None:
-        raise Incomplete("Mesh namedtuple not found")
-    role = {}
-    rnode = None
-    for rn in cfg.returns():
-        r = rn.ast.value
-        if isinstance(r, ast.Tuple) and isinstance(r.elts[0], ast.Call):
-            rnode = rn
-            for fld, a in zip(mesh_nt.fields, r.elts[0].args):
-                role[fld] = a
-    if rnode is None:
-        raise Incomplete("combine_mesh: returned Mesh(...) not found")
-    for fld, callee in (("blocks", "combine_blocks"), ("nodeSets", "combine_nodesets"), ("sideSets", "combine_sidesets")):
-        a = role.get(fld)
-        ok = False
-        if isinstance(a, ast.Name):
-            ds = cfg.reaching(rnode, a.id)
-            ok = any(isinstance(d.ast, ast.Assign) and isinstance(d.ast.value, ast.Call) and isinstance(d.ast.value.func, ast.Name)
-                     and d.ast.value.func.id == callee for d in ds)
-        ctx.decide(rule, ok, cm, rnode.ast, construct=f"result-field:{fld}", detail=f"Mesh.{fld} <- result of {callee}",
-                   bad_detail=f"merged Mesh.{fld} is filled with `{src(a)}`, which is not the result of {callee}")
-    for fld in ("coords", "conns"):
-        a = role.get(fld)
-        d = single_def(cfg, rnode, a.id) if isinstance(a, ast.Name) else None
-        if d is None:
-            ctx.undecided(rule, cm, rnode.ast, construct=f"{fld}:definition", detail=f"Mesh.{fld} <- {src(a)}: no unique definition")
-            continue
-        v = d.ast.value
-        if fld == "coords":
-            ok = same(v, f"np.concatenate(({mesh1}.coords, {mesh2}.coords), axis=0)")
-            ctx.decide(rule, ok, cm, d.ast, construct="coords:first-mesh-first", detail=src(v)[:80],
-                       bad_detail=f"coordinates merged as `{src(v)[:100]}`; offsets assume first mesh first")
-        else:
-            ok = False
-            shown = src(v)
-            if isinstance(v, ast.Call) and (dotted(v.func) or "").endswith("concatenate") and isinstance(v.args[0], ast.Tuple) and len(v.args[0].elts) == 2:
-                a0, b0 = v.args[0].elts
-                okb = isinstance(b0, ast.BinOp) and isinstance(b0.op, ast.Add) and \
-                    ({_kind(ctx, cfg, d, b0.right, mesh1), src(b0.left)} == {"node-count(first)", f"{mesh2}.conns"} or
-                     {_kind(ctx, cfg, d, b0.left, mesh1), src(b0.right)} == {"node-count(first)", f"{mesh2}.conns"})
-                ok = src(a0) == f"{mesh1}.conns" and okb
-            ctx.decide(rule, ok, cm, d.ast, construct="conns:second-mesh-shifted-by-node-count", detail=shown[:90],
-                       bad_detail=f"connectivity merged as `{shown[:110]}`; the second mesh's node ids must be shifted by the first mesh's node count")
+        ctx.decide(rule, bad is None, cm, None, construct=cons, detail=detail,
+                   bad_detail=f"combine_mesh (first mesh: {nN1} nodes / {nE1} elements): {bad}; required: {detail}")
 
 
 # ------------------------------------------------------------------ D2
+# Decided on results: the readers are interpreted on fake files (rules/C13_io.py).
 
-INDEX_RECORDS = ("connect", "node_ns", "elem_ss", "side_ss")
-PLAIN_RECORDS = ("coordx", "coordy", "elem_num_map")
-
-
-def _key_prefix(cfg, node, e):
-    """String prefix of the record key expression."""
-    ex = expand(cfg, node, e)
-    if isinstance(ex, ast.Constant) and isinstance(ex.value, str):
-        return ex.value
-    if isinstance(ex, ast.BinOp) and isinstance(ex.op, ast.Add) and isinstance(ex.left, ast.Constant) and isinstance(ex.left.value, str):
-        return ex.left.value
-    if isinstance(ex, ast.JoinedStr) and ex.values and isinstance(ex.values[0], ast.Constant):
-        return ex.values[0].value
-    return None
+def d2_exodus(ctx):
+    from . import C13_io
+    C13_io.exodus_rules(ctx)
 
 
-def _shift_of(stmt, w):
-    """Constant added to the value read by node `w` inside statement `stmt` (largest enclosing
-    +/- chain with constants); None if the enclosing arithmetic is not of the form w + c."""
-    best = w
-    parents = {}
-    for par in ast.walk(stmt):
-        for ch in ast.iter_child_nodes(par):
-            parents[id(ch)] = par
-    cur = w
-    while id(cur) in parents and isinstance(parents[id(cur)], ast.BinOp) and isinstance(parents[id(cur)].op, (ast.Add, ast.Sub)):
-        cur = parents[id(cur)]
-        best = cur
-    if best is w:
-        return 0
-    import copy
-    A = Algebra()
-
-    class R(ast.NodeTransformer):
-        def visit_Subscript(self, n_):
-            return ast.Name(id="REC__", ctx=ast.Load()) if n_ is w else self.generic_visit(n_)
-
-        def visit_Name(self, n_):
-            return ast.Name(id="REC__", ctx=ast.Load()) if n_ is w else n_
-    # transform on the original (identity-based), restoring nothing: work on a shallow re-parse instead
-    text = src(best)
-    wtxt = src(w)
-    if text.count(wtxt) != 1:
-        return None
-    try:
-        e = ast.parse(text.replace(wtxt, "REC__"), mode="eval").body
-        r = A.norm(A.lower(e) - A.atom("REC__"))
-    except (NotPolynomial, SyntaxError):
-        return None
-    if r.n.is_const() and r.d.is_const():
-        c = r.n.const_value() / r.d.const_value()
-        return int(c) if c.denominator == 1 else float(c)
-    return None
-
-
-def d2_one_based(ctx):
-    rule = "D2/T5-one-based-records"
-    mod = ctx.need_module(RX)
-    n_idx = 0
-    # record getters: module functions that return `<param>.variables[<param>]` (possibly after side-effect-only statements)
-    getters = {}
-    for g in mod.scope.children:
-        if not g.is_function() or g.kind != "function":
-            continue
-        gp = g.params()
-        rets_ = g.returns()
-        if len(rets_) != 1:
-            continue
-        rv = rets_[0]
-        if isinstance(rv, ast.Name):
-            defs_ = [st_.value for st_ in ast.walk(g.node) if isinstance(st_, ast.Assign) and isinstance(st_.targets[0], ast.Name) and st_.targets[0].id == rv.id]
-            rv = defs_[0] if len(defs_) == 1 else rv
-        if isinstance(rv, ast.Subscript) and isinstance(rv.value, ast.Attribute) and rv.value.attr == "variables" and isinstance(rv.value.value, ast.Name) \
-                and rv.value.value.id in gp and isinstance(rv.slice, ast.Name) and rv.slice.id in gp:
-            getters[g.name] = gp.index(rv.slice.id)
-    for sc in mod.scope.children:
-        if not sc.is_function() or sc.name in getters:
-            continue
-        cfg = cfg_of(sc)
-        for n in cfg.nodes:
-            if n.kind != "stmt" or not isinstance(n.ast, ast.Assign):
-                continue
-            v = n.ast.value
-            # record = ds.variables[key]     |   x = ds.variables['coordx'][:]     |   record = getter(ds, key)
-            sub = None
-            key_expr = None
-            for w in ast.walk(v):
-                if isinstance(w, ast.Subscript) and isinstance(w.value, ast.Attribute) and w.value.attr == "variables":
-                    sub, key_expr = w, w.slice
-                if isinstance(w, ast.Call) and isinstance(w.func, ast.Name) and w.func.id in getters and len(w.args) > getters[w.func.id]:
-                    sub, key_expr = w, w.args[getters[w.func.id]]
-            if sub is None:
-                continue
-            if any(isinstance(w, ast.Attribute) and w.value is sub for w in ast.walk(v)):
-                continue        # metadata attribute of the record (e.g. .elem_type), not its data
-            pref = _key_prefix(cfg, n, key_expr)
-            if pref is None:
-                continue
-            kind = "index" if pref.startswith(INDEX_RECORDS) else "plain" if pref.startswith(PLAIN_RECORDS) else None
-            if kind is None:
-                continue
-            tname = n.ast.targets[0].id if isinstance(n.ast.targets[0], ast.Name) else None
-            uses = 0
-            use_nodes = []
-            for w in ast.walk(v):
-                if isinstance(w, ast.Subscript) and w.value is sub and isinstance(w.slice, ast.Slice):
-                    uses += 1
-                    use_nodes.append((n, w))
-            if tname and not use_nodes:
-                for m in cfg.nodes:
-                    if m.kind != "stmt" or m.ast is None or m is n:
-                        continue
-                    if n not in cfg.reaching(m, tname):
-                        continue
-                    for w in ast.walk(m.ast):
-                        if isinstance(w, ast.Subscript) and isinstance(w.value, ast.Name) and w.value.id == tname and isinstance(w.slice, ast.Slice):
-                            uses += 1
-                            use_nodes.append((m, w))
-            for (m, w) in use_nodes:
-                total = _shift_of(m.ast, w)
-                # conversions applied later to the stored value
-                if total is not None and isinstance(m.ast, ast.Assign) and isinstance(m.ast.targets[0], ast.Name):
-                    nm2 = m.ast.targets[0].id
-                    for m2 in cfg.nodes:
-                        if m2.kind == "stmt" and m2.ast is not None and m2 is not m and m in cfg.reaching(m2, nm2):
-                            for x in ast.walk(m2.ast):
-                                if isinstance(x, ast.Name) and x.id == nm2 and isinstance(x.ctx, ast.Load):
-                                    extra = _shift_of(m2.ast, x)
-                                    if extra:
-                                        total += extra
-                if total is None:
-                    ctx.undecided(rule, sc, m.ast, construct=f"{pref}*:shift", detail="cannot compute the constant shift applied to the record")
-                    continue
-                if kind == "index":
-                    n_idx += 1
-                    ctx.decide(rule, total == -1, sc, m.ast, construct=f"{pref}*:one-based-to-zero-based",
-                               detail=f"record `{pref}*` shifted by {total} (`{src(m.ast)[:60]}`)",
-                               bad_detail=f"record `{pref}*` (one-based indices in the file) is shifted by {total} in "
-                                          f"`{src(m.ast)[:80]}`; exactly -1 is required")
-                else:
-                    ctx.decide(rule, total == 0, sc, m.ast, construct=f"{pref}*:not-an-index",
-                               detail=f"record `{pref}*` is not shifted", bad_detail=f"record `{pref}*` is not an index but is shifted by {total}")
-            if uses == 0 and kind == "index":
-                ctx.undecided(rule, sc, n.ast, construct=f"{pref}*:read", detail="record fetched but its data read not found")
-    if n_idx < 4:
-        raise Incomplete(f"{n_idx} index-valued record reads found (4 expected: connect, node_ns, elem_ss, side_ss)")
-
-
-def d2_block_ranges(ctx):
-    rule = "D2/T4-block-ranges-accumulate"
-    for fname in ("_read_blocks", "_read_block_maps"):
-        sc = ctx.need(f"{RX}:{fname}")
-        cfg = cfg_of(sc)
-        loops = [n for n in cfg.nodes if n.kind == "for"]
-        hit = 0
-        for n in cfg.nodes:
-            if n.kind != "stmt" or not isinstance(n.ast, ast.Assign) or not n.loops:
-                continue
-            # start : start + count   (np.arange(a, a + c)  or slice a:a+c)
-            cands = []
-            for w in ast.walk(n.ast.value):
-                if isinstance(w, ast.Call) and (dotted(w.func) or "").endswith("arange") and len(w.args) == 2:
-                    cands.append((w.args[0], w.args[1]))
-                if isinstance(w, ast.Slice) and w.lower is not None and w.upper is not None:
-                    cands.append((w.lower, w.upper))
-            for lo, hi in cands:
-                if not (isinstance(lo, ast.Name) and isinstance(hi, ast.BinOp) and isinstance(hi.op, ast.Add)):
-                    continue
-                parts = [hi.left, hi.right]
-                if not any(isinstance(p, ast.Name) and p.id == lo.id for p in parts):
-                    continue
-                cnt = [p for p in parts if not (isinstance(p, ast.Name) and p.id == lo.id)][0]
-                hit += 1
-                defs = cfg.reaching(n, lo.id)
-                inloop = [d for d in defs if d.loops]
-                pre = [d for d in defs if not d.loops]
-                ok = len(inloop) == 1 and isinstance(inloop[0].ast, ast.AugAssign) and isinstance(inloop[0].ast.op, ast.Add) \
-                    and same(inloop[0].ast.value, cnt) and len(pre) == 1 and const_value(getattr(pre[0].ast, "value", None)) == 0
-                # the count must not change between its use in the range and the accumulation
-                if ok and isinstance(cnt, ast.Name):
-                    ok = cfg.same_value(cnt.id, n, inloop[0])
-                ctx.decide(rule, ok, sc, n.ast, construct=f"{fname}:range-start-accumulated",
-                           detail=f"`{lo.id}` starts at 0 and is advanced by `+= {src(cnt)}` each block",
-                           bad_detail=f"block range `{src(lo)}:{src(hi)}`: `{lo.id}` is updated by {[src(d.ast) for d in inloop]} "
-                                      f"(must be `{lo.id} += {src(cnt)}` starting from 0); blocks after the second would overlap or skip elements")
-        if hit == 0:
-            ctx.undecided(rule, sc, None, construct=f"{fname}:range", detail="no start:start+count range found")
-    # all block connectivities are stacked in block order
-    sc = ctx.need(f"{RX}:_read_blocks")
-    rets = sc.returns()
-    ok = False
-    if rets and isinstance(rets[0], ast.Tuple):
-        cfg = cfg_of(sc)
-        r = cfg.returns()[0]
-        e = expand(cfg, r, rets[0].elts[0])
-        ok = isinstance(e, ast.Call) and (dotted(e.func) or "").endswith("vstack")
-    ctx.decide(rule, ok, sc, rets[0] if rets else None, construct="_read_blocks:conns-stacked-in-block-order",
-               detail="conns = vstack(per-block connectivities)", bad_detail="block connectivities are not stacked with vstack in block order")
-
-
-def _fold_int_lists(expr, env):
-    """Constant folding of the tiny integer-array language used for the face tables."""
-    if isinstance(expr, ast.Constant):
-        return expr.value
-    if isinstance(expr, ast.Name):
-        return env[expr.id]
-    if isinstance(expr, ast.BinOp):
-        a, b = _fold_int_lists(expr.left, env), _fold_int_lists(expr.right, env)
-        def bc(x, y, f):
-            if isinstance(x, list) and isinstance(y, list):
-                return [f(p, q) for p, q in zip(x, y)]
-            if isinstance(x, list):
-                return [f(p, y) for p in x]
-            if isinstance(y, list):
-                return [f(x, q) for q in y]
-            return f(x, y)
-        if isinstance(expr.op, ast.Add):
-            return bc(a, b, lambda p, q: p + q)
-        if isinstance(expr.op, ast.Sub):
-            return bc(a, b, lambda p, q: p - q)
-        if isinstance(expr.op, ast.Mult):
-            return bc(a, b, lambda p, q: p * q)
-        if isinstance(expr.op, (ast.Div, ast.FloorDiv)):
-            return bc(a, b, lambda p, q: p // q if p % q == 0 else p / q)
-    if isinstance(expr, ast.Call):
-        d = (dotted(expr.func) or "").split(".")[-1]
-        args = [_fold_int_lists(a, env) for a in expr.args]
-        if d == "arange":
-            return list(range(*[int(a) for a in args]))
-        if d == "flip":
-            return list(reversed(args[0]))
-        if d == "cumsum":
-            out, t = [], 0
-            for x in args[0]:
-                t += x
-                out.append(t)
-            return out
-        if d == "int":
-            return int(args[0])
-        if d in ("array", "asarray"):
-            return args[0]
-    if isinstance(expr, (ast.List, ast.Tuple)):
-        return [_fold_int_lists(e, env) for e in expr.elts]
-    raise ValueError("cannot fold " + src(expr))
-
-
-def d2_permutation(ctx):
-    rule = "D2/T5-tri6-permutation"
-    mod = ctx.need_module(RX)
-    bs = mod.scope.bindings.get("exodusToNativeTri6NodeOrder")
-    if not bs:
-        raise Incomplete("exodusToNativeTri6NodeOrder not found")
-    lit = bs[-1].value
-    try:
-        perm = _fold_int_lists(lit, {})
-    except ValueError:
-        ctx.undecided(rule, mod.scope, lit, construct="permutation-literal", detail="not a literal list")
-        return
-    ctx.decide(rule, sorted(perm) == list(range(6)), mod.scope, lit, construct="is-permutation-of-0..5", detail=f"{perm}",
-               bad_detail=f"exodusToNativeTri6NodeOrder = {perm} is not a permutation of 0..5: nodes would be duplicated or lost")
-    # native tables at degree 2 from make_parent_element_2d
-    mk = ctx.need(f"{IP}:make_parent_element_2d")
-    try:
-        from . import parentelem
-        rec, _I = parentelem.build(ctx.repo, "make_parent_element_2d", 2)
-        vertex = parentelem._ints(rec.get("vertexNodes"))
-        flat = parentelem._ints(rec.get("faceNodes"))
-        faces = [flat[0:3], flat[3:6], flat[6:9]]
-        if len(flat) != 9 or len(vertex) != 3:
-            raise ValueError(f"unexpected table sizes {len(vertex)}, {len(flat)}")
-    except Exception as ex:
-        ctx.undecided(rule, mk, None, construct="parent-element-tables", detail=f"cannot evaluate the vertex/face tables at degree 2: {ex}")
-        return
-    ctx.extra_cov["tri6_tables"] = {"vertexNodes": vertex, "faceNodes": faces, "perm": perm}
-    if sorted(perm) != list(range(6)):
-        return
-    # native conns[:, j] = exodus conns[:, perm[j]]
-    for k in range(3):
-        ok = perm[vertex[k]] == k
-        ctx.decide(rule, ok, mod.scope, lit, construct=f"vertex-{k}",
-                   detail=f"native vertex slot {vertex[k]} receives Exodus vertex {perm[vertex[k]]}",
-                   bad_detail=f"native vertex slot {vertex[k]} (vertex {k}) receives Exodus node {perm[vertex[k]]}; must be Exodus vertex {k} "
-                              f"(counter-clockwise vertex order is preserved only then)")
-    exo_mid = {(0, 1): 3, (1, 2): 4, (2, 0): 5}
-    for f in range(3):
-        fn = faces[f]
-        a, mid, b = fn[0], fn[1], fn[2]
-        if a not in vertex or b not in vertex:
-            ctx.undecided(rule, mk, None, construct=f"face-{f}", detail=f"face table row {fn} does not start/end at vertices")
-            continue
-        ea, eb = vertex.index(a), vertex.index(b)
-        want = exo_mid.get((ea, eb))
-        ok = want is not None and perm[mid] == want
-        ctx.decide(rule, ok, mod.scope, lit, construct=f"mid-edge-of-face-{f}",
-                   detail=f"native mid-edge slot {mid} of face ({ea},{eb}) receives Exodus node {perm[mid]}",
-                   bad_detail=f"native mid-edge slot {mid} of the face between vertices {ea} and {eb} receives Exodus node {perm[mid]}, "
-                              f"expected the Exodus mid-side node {want}")
-    # vertex extraction before permuting, from the first three columns
-    rd = ctx.need(f"{RX}:read_exodus_mesh")
-    cfg = cfg_of(rd)
-    vx = [n for n in cfg.nodes if n.kind == "stmt" and isinstance(n.ast, ast.Assign) and "_get_vertex_nodes_from_exodus_tri6_mesh" in src(n.ast)]
-    pm = [n for n in cfg.nodes if n.kind == "stmt" and isinstance(n.ast, ast.Assign) and "exodusToNativeTri6NodeOrder" in src(n.ast.value)]
-    ok = len(vx) == 1 and len(pm) == 1 and cfg.dominates(vx[0], pm[0]) and vx[0] is not pm[0]
-    ctx.decide(rule, ok, rd, vx[0].ast if vx else None, construct="vertices-extracted-before-permutation",
-               detail="vertex set taken from Exodus-ordered connectivity", bad_detail="vertex nodes are extracted after (or without) the permutation: columns 0..2 are then not the Exodus vertices")
-    gv = ctx.need(f"{RX}:_get_vertex_nodes_from_exodus_tri6_mesh")
-    subs = [w for w in ast.walk(gv.node) if isinstance(w, ast.Subscript) and isinstance(w.slice, ast.Tuple) and len(w.slice.elts) == 2
-            and isinstance(w.slice.elts[1], ast.Slice)]
-    ok = len(subs) == 1 and subs[0].slice.elts[1].lower is None and const_value(subs[0].slice.elts[1].upper) == 3
-    ctx.decide(rule, ok, gv, subs[0] if subs else None, construct="vertex-columns-are-first-three", detail="conns[:, :3]",
-               bad_detail=f"vertex extraction reads `{src(subs[0]) if subs else '?'}`, not the first three Exodus columns")
-    # the permutation is applied to columns
-    for n in pm:
-        v = n.ast.value
-        ok = isinstance(v, ast.Subscript) and isinstance(v.slice, ast.Tuple) and isinstance(v.slice.elts[0], ast.Slice) and \
-            src(v.slice.elts[1]) == "exodusToNativeTri6NodeOrder"
-        ctx.decide(rule, ok, rd, n.ast, construct="permutation-applied-to-columns", detail=src(n.ast),
-                   bad_detail=f"`{src(n.ast)}` does not permute the columns of the connectivity")
+def d2_json(ctx):
+    from . import C13_io
+    C13_io.json_rules(ctx)
 
 
 # ------------------------------------------------------------------ D3
 
 def d3_elevation(ctx):
-    rule = "D3/T6-order-elevation"
-    sc = ctx.need(f"{ME}:create_higher_order_mesh_from_simplex_mesh")
-    cfg = cfg_of(sc)
-    # stores conns.at[elem, masterNodes].set(X) in the edge loop
-    sets = []
-    for n in cfg.nodes:
-        if n.kind == "stmt" and isinstance(n.ast, ast.Assign) and n.loops and isinstance(n.ast.value, ast.Call) \
-                and isinstance(n.ast.value.func, ast.Attribute) and n.ast.value.func.attr == "set":
-            sets.append(n)
-    if len(sets) != 2:
-        ctx.undecided(rule, sc, None, construct="edge-node-stores", detail=f"{len(sets)} stores in the edge loop (2 expected: left and right element)")
-    else:
-        left = [n for n in sets if not any(c.kind == "cond" for (c, l) in cfg.edge_facts(n) if c.loops)]
-        right = [n for n in sets if n not in left]
-        if len(left) == 1 and len(right) == 1:
-            lv, rv = left[0].ast.value.args[0], right[0].ast.value.args[0]
-            okl = isinstance(lv, ast.Name)
-            okr = isinstance(rv, ast.Call) and (dotted(rv.func) or "").endswith("flip") and len(rv.args) == 1 and okl and same(rv.args[0], lv)
-            ctx.decide(rule, okl and okr, sc, right[0].ast, construct="right-neighbour-gets-reversed-edge-nodes",
-                       detail=f"left: {src(lv)}, right: {src(rv)}",
-                       bad_detail=f"left element stores `{src(lv)}` and right neighbour `{src(rv)}`: the neighbour must receive the same nodes in "
-                                  f"reversed order (shared edge is traversed in opposite directions)")
-            # guard of the right store: only when a right element exists
-            facts = [src(c.ast) for (c, l) in cfg.edge_facts(right[0]) if c.kind == "cond" and l]
-            ctx.decide(rule, any(">= 0" in f or "> -1" in f for f in facts), sc, right[0].ast, construct="right-store-guarded",
-                       detail=f"under {facts}", bad_detail="the right-neighbour store is not guarded by `elemRight >= 0` (boundary edges have -1)")
-            # both use the interior nodes of their own side's face row
-            for nm, nd, side_col in (("left", left[0], 1), ("right", right[0], 3)):
-                tgt = nd.ast.value.func.value       # conns.at[elem, masterNodes]
-                idx = tgt.slice.elts if isinstance(tgt.slice, ast.Tuple) else []
-                ok = False
-                shown = src(tgt)
-                if len(idx) == 2:
-                    el = expand(cfg, nd, idx[0])
-                    mn = expand(cfg, nd, idx[1])
-                    # the loop variable that holds the edge record (second target of `for e, edge in enumerate(edges)`)
-                    ev_ = "edge"
-                    for h in nd.loops:
-                        if isinstance(h.ast.target, ast.Tuple) and len(h.ast.target.elts) == 2 and isinstance(h.ast.target.elts[1], ast.Name):
-                            ev_ = h.ast.target.elts[1].id
-                    ok = same(el, f"{ev_}[{side_col - 1}]") and f"faceNodes[{ev_}[{side_col}]]" in src(mn) and "interiorNodes" in src(mn)
-                    shown = f"conns.at[{src(el)}, {src(mn)}]"
-                ctx.decide(rule, ok, sc, nd.ast, construct=f"{nm}-store-uses-own-element-and-side",
-                           detail=shown[:110], bad_detail=f"{nm} store addresses `{shown[:120]}`; expected element edge[{side_col - 1}] and face row edge[{side_col}]")
-    # numbering ranges: edge nodes nNodes + [e*n, (e+1)*n), interior nodes after all edge nodes
-    A = Algebra()
-    en = [n for n in cfg.nodes if n.kind == "stmt" and isinstance(n.ast, ast.Assign) and n.loops and isinstance(n.ast.value, ast.BinOp)
-          and "arange" in src(n.ast.value)]
-    ok = False
-    shown = "?"
-    for n in en:
-        v = n.ast.value
-        ar = [w for w in ast.walk(v) if isinstance(w, ast.Call) and (dotted(w.func) or "").endswith("arange")]
-        if len(ar) == 1 and len(ar[0].args) == 2:
-            try:
-                lo, hi = A.lower(ar[0].args[0]), A.lower(ar[0].args[1])
-                per = A.norm(hi - lo)
-                loopvar = [x for x in per.atoms()]
-                shown = f"offset + arange({lo!r}, {hi!r})"
-                # consecutive blocks: hi(e) == lo(e+1)
-                e_name = None
-                for (c, l) in cfg.edge_facts(n):
-                    pass
-                for h in n.loops:
-                    if isinstance(h.ast.target, ast.Tuple) and isinstance(h.ast.target.elts[0], ast.Name):
-                        e_name = h.ast.target.elts[0].id
-                if e_name:
-                    nxt = A.subst(lo, e_name, A.norm(A.atom(e_name) + A.const(1)))
-                    ok = A.equal(nxt, hi) and A.is_zero(A.subst(lo, e_name, A.const(0)))
-            except NotPolynomial:
-                pass
-            ctx.decide(rule, ok, sc, n.ast, construct="edge-node-numbers-consecutive",
-                       detail=f"{shown}: block e ends where block e+1 starts, block 0 starts at the offset",
-                       bad_detail=f"edge node numbers `{src(v)[:100]}` are not consecutive disjoint blocks starting at the vertex count")
-    if not en:
-        ctx.undecided(rule, sc, None, construct="edge-node-numbers-consecutive", detail="edge node numbering not found")
-    # offset after edges: increment == (number of edges) * (nodes per edge used in the numbering above)
-    aug = [n for n in cfg.nodes if n.kind == "stmt" and isinstance(n.ast, ast.AugAssign) and isinstance(n.ast.op, ast.Add) and not n.loops]
-    ok = False
-    shown = ""
-    per_edge = None
-    iter_name = None
-    for n in en:
-        ar = [w for w in ast.walk(n.ast.value) if isinstance(w, ast.Call) and (dotted(w.func) or "").endswith("arange")]
-        if len(ar) == 1 and len(ar[0].args) == 2:
-            try:
-                per_edge = A.norm(A.lower(ar[0].args[1]) - A.lower(ar[0].args[0]))
-            except NotPolynomial:
-                per_edge = None
-        for h in n.loops:
-            it = h.ast.iter
-            if isinstance(it, ast.Call) and (dotted(it.func) or "") == "enumerate" and isinstance(it.args[0], ast.Name):
-                iter_name = it.args[0].id
-    for n in aug:
-        try:
-            R = A.lower(n.ast.value)
-        except NotPolynomial:
-            continue
-        shown = src(n.ast)
-        if per_edge is None or iter_name is None:
-            continue
-        extra = sorted(R.atoms() - per_edge.atoms())
-        if len(extra) == 1 and A.equal(R, A.norm(per_edge * A.atom(extra[0]))):
-            d = single_def(cfg, n, extra[0])
-            if d is not None and same(def_value(d, extra[0]), f"{iter_name}.shape[0]"):
-                ok = True
-    ctx.decide(rule, ok, sc, aug[0].ast if aug else None, construct="interior-offset-after-all-edge-nodes",
-               detail=f"`{shown}`: offset advanced by (number of edges) x (nodes per edge)",
-               bad_detail=f"interior node numbers start after `{shown}`, which is not (number of edges) x (new nodes per edge = {per_edge!r}): "
-                          f"numbers would collide with edge nodes or leave gaps")
-    # coordinates stacked in numbering order: vertices, then the nodes derived from the edge list, then the element-interior nodes.
-    # Roles are decided by what each stacked block is computed from (flow-insensitive def-use closure), not by names or shapes of statements.
-    mp = sc.params()[0]
-    uses_ = {}
-    for st_ in ast.walk(sc.node):
-        tg_ = []
-        val_ = None
-        if isinstance(st_, ast.Assign):
-            val_ = st_.value
-            for t_ in st_.targets:
-                tg_ += [x.id for x in ast.walk(t_) if isinstance(x, ast.Name)]
-        elif isinstance(st_, ast.FunctionDef) and st_ is not sc.node:
-            tg_, val_ = [st_.name], st_
-        if val_ is None:
-            continue
-        marks = {x.id for x in ast.walk(val_) if isinstance(x, ast.Name)} | {"." + x.attr for x in ast.walk(val_) if isinstance(x, ast.Attribute)}
-        for t_ in tg_:
-            uses_.setdefault(t_, set()).update(marks - {t_})
+    """Decided on the *result* of the order elevation interpreted on sample meshes with symbolic vertex coordinates (rules/C03_mesh.py):
+    node ranges, shared edge nodes in matching order, affine placement with the vertex convention of the parent element, no duplicate or
+    unused nodes.  Independent of how the routine is cut into loops / helpers / closures."""
+    from . import C03_mesh
+    C03_mesh.elevation(ctx, "D3/T6-order-elevation")
 
-    def closure_(e_):
-        seen_, work_ = set(), [x.id for x in ast.walk(e_) if isinstance(x, ast.Name)] + ["." + x.attr for x in ast.walk(e_) if isinstance(x, ast.Attribute)]
-        while work_:
-            x_ = work_.pop()
-            if x_ in seen_:
-                continue
-            seen_.add(x_)
-            work_ += list(uses_.get(x_, ()))
-        return seen_
-    vst = [st for st in ast.walk(sc.node) if isinstance(st, ast.Assign) and isinstance(st.value, ast.Call) and (dotted(st.value.func) or "").endswith("vstack")
-           and st.value.args and isinstance(st.value.args[0], ast.Tuple) and len(st.value.args[0].elts) == 3]
-    ok = False
-    if len(vst) == 1:
-        e0, e1, e2 = vst[0].value.args[0].elts
-        d1, d2 = closure_(e1), closure_(e2)
-        ok = same(e0, f"{mp}.coords") and "create_edges" in d1 and "create_edges" not in d2 and ".interiorNodes" in d2 and ".conns" in d2
-    ctx.decide(rule, ok, sc, vst[0] if vst else None, construct="coords-stacked-in-numbering-order", detail="vstack((vertices, edge nodes, interior nodes))",
-               bad_detail=f"coordinates stacked as `{src(vst[0].value)[:110] if vst else '?'}`; node numbers are vertices, then edge nodes (from the edge connectivity), then interior nodes")
-    u = Unifier(sc)
-    # the name of the interior-coordinates block (third stacked block) for the affine-map check below
-    if len(vst) == 1:
-        base_ = vst[0].value.args[0].elts[2]
-        while isinstance(base_, (ast.Call, ast.Attribute)):
-            base_ = base_.func if isinstance(base_, ast.Call) else base_.value
-        if isinstance(base_, ast.Name):
-            u.bind["interiorCoords"] = base_.id
-    # interior-node affine map convention == FunctionSpace.map_element_shape_grads convention
-    fsmap = ctx.need("optimism.FunctionSpace:map_element_shape_grads")
-    fcfg = cfg_of(fsmap)
-    jdef = [n for n in fcfg.nodes if n.kind == "stmt" and isinstance(n.ast, ast.Assign) and isinstance(n.ast.value, ast.Call)
-            and (dotted(n.ast.value.func) or "").endswith("column_stack")]
-    conv = None
-    if len(jdef) == 1 and isinstance(jdef[0].ast.value.args[0], ast.Tuple) and len(jdef[0].ast.value.args[0].elts) == 2:
-        vn_ = [n_.ast.targets[0].id for n_ in fcfg.nodes if n_.kind == "stmt" and isinstance(n_.ast, ast.Assign) and "vertexNodes" in src(n_.ast.value)
-               and isinstance(n_.ast.targets[0], ast.Name)]
-        vn_ = vn_[0] if vn_ else "v"
-        cols = [src(c).replace(f"{vn_}[", "v[") for c in jdef[0].ast.value.args[0].elts]
-        conv = cols          # ['v[0] - v[2]', 'v[1] - v[2]']
-    # the interpolation matrix of the element-interior nodes: the three-column column_stack that the interior block derives from
-    inter = []
-    interior_deps = closure_(vst[0].value.args[0].elts[2]) if len(vst) == 1 else set()
-    for m in cfg.nodes:
-        if m.kind == "stmt" and isinstance(m.ast, ast.Assign) and isinstance(m.ast.targets[0], ast.Name) and isinstance(m.ast.value, ast.Call) \
-                and (dotted(m.ast.value.func) or "").endswith("column_stack") and m.ast.value.args and isinstance(m.ast.value.args[0], ast.Tuple) \
-                and len(m.ast.value.args[0].elts) == 3 and m.ast.targets[0].id in interior_deps:
-            inter.append(m)
-    if conv is None or len(inter) != 1:
-        ctx.undecided(rule, sc, None, construct="interior-map-convention", detail=f"affine map definitions not found (J: {conv}, interior: {len(inter)})")
-    else:
-        n = inter[0]
-        cols = jdef and n.ast.value.args[0].elts
-        B = Algebra()
-        try:
-            ws = []
-            for c in cols:
-                e = expand(cfg, n, c)
-                # basis.coordinates[basis.interiorNodes, k] -> xi_k
-                import copy
-                class R(ast.NodeTransformer):
-                    def visit_Subscript(self, s):
-                        if isinstance(s.slice, ast.Tuple) and len(s.slice.elts) == 2 and "coordinates" in src(s.value) and const_value(s.slice.elts[1]) in (0, 1):
-                            return ast.Name(id=f"xi{const_value(s.slice.elts[1])}", ctx=ast.Load())
-                        return self.generic_visit(s)
-                ws.append(B.lower(R().visit(copy.deepcopy(e))))
-            # x = sum_k w_k v_k ; compare d/dxi0, d/dxi1 with the FunctionSpace Jacobian columns
-            want = []
-            for c in conv:
-                cc = ast.parse(c.replace("v[0]", "v0").replace("v[1]", "v1").replace("v[2]", "v2"), mode="eval").body
-                want.append(B.lower(cc))
-            x = B.norm(ws[0] * B.atom("v0") + ws[1] * B.atom("v1") + ws[2] * B.atom("v2"))
-            ok = B.equal(B.diff(x, "xi0"), want[0]) and B.equal(B.diff(x, "xi1"), want[1]) and \
-                B.equal(B.norm(ws[0] + ws[1] + ws[2]), B.const(1))
-            ctx.decide(rule, ok, sc, n.ast, construct="interior-map-convention",
-                       detail=f"x(xi) = {x!r}: dx/dxi0 = {B.diff(x, 'xi0')!r}, dx/dxi1 = {B.diff(x, 'xi1')!r} as in map_element_shape_grads",
-                       bad_detail=f"interior nodes are placed at x(xi) = {x!r}, i.e. dx/dxi0 = {B.diff(x, 'xi0')!r}, dx/dxi1 = {B.diff(x, 'xi1')!r}; "
-                                  f"FunctionSpace.map_element_shape_grads uses J = [{conv[0]}, {conv[1]}]: the two affine maps disagree")
-        except (NotPolynomial, IndexError) as ex:
-            ctx.undecided(rule, sc, n.ast, construct="interior-map-convention", detail=str(ex))
-    # edge nodes: weights (1-s, s) on (first, second) vertex of the edge
-    for n in cfg.nodes:
-        if n.kind == "stmt" and isinstance(n.ast, ast.Assign) and isinstance(n.ast.value, ast.Call) and (dotted(n.ast.value.func) or "").endswith("column_stack") \
-                and isinstance(n.ast.value.args[0], ast.Tuple) and len(n.ast.value.args[0].elts) == 2 and "parentElement1d" in src(n.ast.value):
-            a, b = n.ast.value.args[0].elts
-            ok = isinstance(a, ast.BinOp) and isinstance(a.op, ast.Sub) and const_value(a.left) == 1 and same(a.right, b)
-            ctx.decide(rule, ok, sc, n.ast, construct="edge-node-weights", detail="(1 - s, s) on (first, second) edge vertex",
-                       bad_detail=f"edge node weights `{src(n.ast.value)[:100]}` are not (1 - s, s)")
+
+def d3_edges(ctx):
+    from . import C03_mesh
+    C03_mesh.edge_extraction(ctx, "D3/T6-edge-extraction")
 
 
 def variants(repo):
@@ -918,6 +327,22 @@ def variants(repo):
                                             "        N1 = basis.coordinates[basis.interiorNodes,0]\n        N2 = basis.coordinates[basis.interiorNodes,1]\n        N0 = 1.0 - N1 - N2"), "D3/T6-order-elevation"),
         Variant("interior offset", M, sub("    nodeOrdinalOffset += nEdges*nNodesPerEdge", "    nodeOrdinalOffset += nEdges"), "D3/T6-order-elevation"),
         Variant("edge numbering overlap", M, sub("np.arange(e*nNodesPerEdge,(e+1)*nNodesPerEdge)", "np.arange(e,e+nNodesPerEdge)"), "D3/T6-order-elevation"),
+        # --- further breaking edits
+        Variant("right-neighbour store unguarded", M, sub("        if elemRight >= 0:", "        if True:"), "D3/T6-order-elevation"),
+        Variant("edge node weights exchanged", M, sub("    A = np.column_stack((1.0-parentElement1d.coordinates[parentElement1d.interiorNodes],\n                         parentElement1d.coordinates[parentElement1d.interiorNodes]))",
+                                                    "    A = np.column_stack((parentElement1d.coordinates[parentElement1d.interiorNodes],\n                         1.0-parentElement1d.coordinates[parentElement1d.interiorNodes]))"), "D3/T6-order-elevation"),
+        Variant("blocks merged unshifted", M, sub_in_func("combine_blocks", "        val = set2[key] + elemOffset", "        val = set2[key]"), "D1/T9-index-kinds"),
+        Variant("right side of an edge miscounted", M, sub("            edges[i, 3] = j // nTris", "            edges[i, 3] = j % 3"), "D3/T6-edge-extraction"),
+        Variant("default element map zero-based", R, sub("        elementMap = onp.arange(1, nEle)", "        elementMap = onp.arange(0, nEle - 1)"), "D2/T4-block-ranges-accumulate"),
+        Variant("json side set columns exchanged", "optimism/ReadMesh.py", sub("        sideSets[key] = np.column_stack((elements, sides))", "        sideSets[key] = np.column_stack((sides, elements))"), "D2/T5-json-reader"),
+        Variant("elevated mesh keeps the linear parent element", M, sub("    newMesh = Mesh(coords, conns, simplexNodesOrdinals, basis,", "    newMesh = Mesh(coords, conns, simplexNodesOrdinals, mesh.parentElement,"), "D3/T6-order-elevation"),
+        # --- further preserving edits
+        Variant("blocks merged with concatenate", M, sub_in_func("combine_blocks", "np.hstack((newSet[key], val))", "np.concatenate((newSet[key], val))"), None),
+        Variant("block offset by plain assignment", R, sub_in_func("_read_blocks", "        firstElemInBlock += nElemsInBlock", "        firstElemInBlock = nElemsInBlock + firstElemInBlock"), None),
+        Variant("permutation by take", R, sub("            conns = conns[:, exodusToNativeTri6NodeOrder]", "            conns = np.take(conns, exodusToNativeTri6NodeOrder, axis=1)"), None),
+        Variant("guard written negatively", M, sub("        if elemRight >= 0:", "        if not elemRight < 0:"), None),
+        Variant("interior ordinals by 2-d update", M, sub("        conns = vmap(add_element_interior_nodes)(conns, newNodeOrdinals)", "        conns = conns.at[:, basis.interiorNodes].set(newNodeOrdinals)"), None),
+        Variant("minus one applied after stacking", R, sub("    return np.array(record[:] - 1)\n\n\ndef _read_blocks", "    return np.array(record[:])\n\n\ndef _read_blocks", 1), "D2/T5-one-based-records"),
         Variant("reformat Mesh", M, reformat(), None),
         Variant("reformat ReadExodusMesh", R, reformat(), None),
         Variant("alpha-rename combine_mesh", M, alpha_rename("combine_mesh"), None),
